@@ -33,7 +33,7 @@ REFINE_MAP = {'Msm': ['C01', 'C11'], 'Coring': ['C05'], 'Events': ['C06', 'C11']
               'Norm': [('C01', r'row_normalize'), ('C03', r'row_normalize'), ('C04', r'row_normalize'), ('C19', r'split_array'),
                        ('C09', r'calc_times')],
               'Ergodic': ['C14', ('C04', r'is_ergodic|ergodic_mask|is_tmat|is_quadratic|npPow'), ('C03', r'is_ergodic|is_tmat|is_quadratic|npPow')],
-              'HS': ['C03'], 'Cummat': ['C07', 'C08'], 'Peq': ['C04'], 'CompareApi': ['C13', ('C12', r'_refines$')], 'CoringApi': ['C05', ('C12', r'flag_irrelevant|api_refines$')],
+              'HS': ['C03'], 'Cummat': ['C07', 'C08'], 'Peq': ['C04'], 'CompareApi': ['C13', ('C12', r'_refines$'), ('C17', r'compare_discretization_(symmetric|directed)_refines$')], 'CoringApi': ['C05', ('C12', r'flag_irrelevant|api_refines$')],
               'TimesApi': ['C06', 'C11', ('C12', r'flag_irrelevant')], 'Times': ['C08', ('C12', r'estimate_times_(list|hist)_refines$')], 'Relabel': ['C15', ('C02', r'unique|rename_by_index|shift_data'), ('C17', r'rename_by_index|shift_data')],
               'Init': ['C01', 'C02', 'C17'], 'Accessors': ['C02', ('C03', r'lumped'), ('C17', r'construct_then|trajs_refines')], 'CkTest': ['C09'], 'CkApi': ['C09'], 'Public2': [('C13', r'compare_api'), ('C07', r'propagate_tmat')], 'Public': ['C01', 'C03', ('C11', r'public_estimate'), ('C17', r'public_estimate')],
               'Small': [('C01', r'estimate_markov_model'), ('C11', r'estimate_markov_model'), ('C12', r'estimate_markov_model_(perm|default)_refines'), ('C07', r'propagate_MCMC'), ('C20', r'runningmean'), ('C16', r'open_limits'), ('C19', r'open_limits')],
